@@ -334,6 +334,10 @@ class Check:
         if self.tier not in ("quick", "thorough"):
             self.tier = "quick"
         self.seed = int(os.environ.get("VERIF_SEED", "1"))
+        for i, a in enumerate(sys.argv):      # `--seed n` is accepted as well as the VERIF_SEED environment variable
+            if a == "--seed" and i + 1 < len(sys.argv):
+                self.seed = int(sys.argv[i + 1])
+                os.environ["VERIF_SEED"] = sys.argv[i + 1]
         self.rng = SplitMix(self.seed * 1000003 + int(pid[1:]))
         self.t0 = time.time()
         self.cov = {"evaluations": 0, "distinct_nontrivial": 0, "rule": "", "samples": [],
